@@ -104,6 +104,11 @@ fn tame_i64(rng: &mut Rng, lo: i64, hi: i64) -> i64 {
 const ALPHABET: &[&str] = &["a", "b", "A", "", "é", "ß", "日", "😀", " ", ",", "\"", "\n", "%", "_", "\\", "0", "z"];
 
 pub fn rand_string(rng: &mut Rng, cfg: Cfg) -> String {
+    // exact byte lengths around the inline limit of views (12) and the row-format block sizes
+    if rng.chance(15) {
+        let n = *rng.pick(&[4usize, 8, 11, 12, 12, 12, 13, 16, 32, 33]);
+        return (0..n).map(|_| (b'a' + rng.below(6) as u8) as char).collect();
+    }
     let n = match rng.below(10) {
         0 => 0,
         1..=5 => rng.below(4),
